@@ -680,7 +680,18 @@ func c42Diff(want, got c42Outcome, openedBy map[string]string) []string {
 	}
 	for _, n := range c42FileNames {
 		if want.Files[n] != got.Files[n] {
-			d = append(d, "file-content:"+n+":opened-by:"+strings.ReplaceAll(strings.TrimSpace(openedBy[n]), " ", ","))
+			// keyed by the set of operators that opened the file in this form
+			ops := map[string]bool{}
+			for _, op := range strings.Fields(openedBy[n]) {
+				ops[op] = true
+			}
+			var set []string
+			for _, op := range []string{"<", ">", ">>", "<>"} {
+				if ops[op] {
+					set = append(set, op)
+				}
+			}
+			d = append(d, "file-content:opened-by:"+strings.Join(set, ","))
 		}
 	}
 	if want.OutB != got.OutB {
